@@ -21,7 +21,8 @@ class MessageProtocolEntity(ProtocolEntity):
         self._id = messageMetaAttributes.id or self._generateId()
         self._from = messageMetaAttributes.sender
         self.to = messageMetaAttributes.recipient
-        self.timestamp = messageMetaAttributes.timestamp or self._getCurrentTimestamp()
+        self.timestamp = messageMetaAttributes.timestamp if messageMetaAttributes.timestamp is not None \
+            else self._getCurrentTimestamp()
         self.notify = messageMetaAttributes.notify
         self.offline = messageMetaAttributes.offline
         self.retry = messageMetaAttributes.retry
